@@ -334,4 +334,27 @@ theorem responder_send_policy :
     policyOf (Gen.Env.responderSendSync.getD "log") = Mdns.responderSendPolicy ∧
     policyOf (Gen.Env.responderSendTokio.getD "log") = Mdns.responderSendPolicy := by decide
 
+/-! ### 10. `into_owned`, field by field
+
+The model's `intoOwned` functions rebuild a value from its parts (`Model/Owned.lean`) and
+`Props/C16.lean` proves them to be the identity on values. That says something about the Rust code
+only if each hand-written `into_owned` body really copies every field from the field of the same
+name — through `self.f`, `self.f.into_owned()`, `Cow::Owned(self.f.into_owned())`,
+`self.f.into_owned().into()` or a `map(..).collect()` over `self.f`. The translator reads every such
+body (34 structs) and reports, per field, the one field of `self` its initialiser mentions, or `"?"`
+when it mentions none or several (a constant such as `cache_flush: false`, a default, a
+recomputation). A body that leaves a declared field out, or is not a struct literal, is untied. -/
+
+/-- **every field of every struct is carried over by `into_owned` from the field of the same name** -/
+theorem into_owned_fieldwise : ∀ e ∈ Gen.Env.intoOwned, ∀ p ∈ e.2, p.1 = p.2 := by decide
+
+/-- the record and the question are among the structs read (unless untied) -/
+theorem into_owned_envelope :
+    ("own:ResourceRecord" ∈ Gen.Env.untied ∨
+      (Gen.Env.intoOwned.lookup "ResourceRecord").map (·.map (·.1)) =
+        some ["cache_flush", "class", "name", "rdata", "ttl"]) ∧
+    ("own:Question" ∈ Gen.Env.untied ∨
+      (Gen.Env.intoOwned.lookup "Question").map (·.map (·.1)) =
+        some ["qclass", "qname", "qtype", "unicast_response"]) := by decide
+
 end Dns.TieEnv
